@@ -503,17 +503,24 @@ class CompilerPassGenerateCode(CompilerPass):
             if isinstance(last_node, nodes.Expr):
                 last_node = last_node.value
 
-            if isinstance(last_node, nodes.Call):
+            # only a call of a user function ends in a 'jal'; built-ins and
+            # constexpr calls are left as they are
+            if (
+                isinstance(last_node, nodes.Call)
+                and get_function_name(last_node.func) in self.functions
+            ):
                 ndata = last_node._ndata
                 sd = self.data.get_sym_data(last_node.func)
-                if sd.is_read != 1 or not self.data.options.inline_functions:
+                last_op = ndata.code[""][-1] if ndata.code[""] else None
+                # a tail jump skips what the call does after the callee has
+                # returned (taking the returned value off the stack)
+                if (
+                    (sd.is_read != 1 or not self.data.options.inline_functions)
+                    and last_op is not None
+                    and last_op.op == "jal"
+                    and not ndata.code["end"]
+                ):
                     apply_tail_call_optimization = True
-                    last_op = ndata.code[""][-1]
-                    if not last_op.op == "jal":
-                        raise CompilerError(
-                            "Tail call optimization can only be applied to direct function calls",
-                            last_node,
-                        )
                     last_op.op = "j"
 
         # an early return jumps to the end label, which must not fall through
